@@ -215,13 +215,26 @@ def _classify(ctx, fi, recv, loaders, rebound):
                 "(the private copy on the import path: C12.R3)"
         # a field of some other object: where does its value come from?
         stale, seen = [], []
+        loader_methods = set()
+        for lq in loaders:
+            loader_methods |= set(m.classes[lq].methods)
         for o in F.origins(fi, recv, depth=6):
+            hit = None
             if o.kind == "attr" and o.fi is not None and o.fi.cls is not None \
                     and o.fi.cls.qualname in loaders \
                     and isinstance(o.node, ast.Attribute) \
                     and o.node.attr in rebound:
-                stale.append("%s read in %s" % (src(o.node),
-                                                o.fi.qualname))
+                hit = "%s read in %s" % (src(o.node), o.fi.qualname)
+            # the value came *through* the loader's field (the search goes on
+            # to the field's own stores): a hop "<loader method>: self.<F>"
+            for hop in (o.path or [])[1:]:
+                fn_, _, ex = hop.partition(": ")
+                if fn_ in loader_methods and ex.startswith("self.") \
+                        and ex[5:] in rebound:
+                    hit = "%s read in %s" % (ex, fn_)
+                    break
+            if hit:
+                stale.append(hit)
             else:
                 seen.append("%s:%s" % (o.kind, o.text()[:40]))
         if stale:
@@ -274,26 +287,68 @@ RESTORE_EXEMPT = {
 }
 
 
+def field_stores(m, loaders, fld):
+    """[(function, assignment node, is_reset)] for every `self.<fld> = v` in
+    the loader classes; a *reset* assigns a constant or a field that only
+    constructors write (a value no load can have changed)."""
+    out = []
+    for cq in loaders:
+        c = m.classes[cq]
+        for mname, fn in c.methods.items():
+            if not fn.params:
+                continue
+            selfn = fn.params[0]
+            for n in ast.walk(fn.node):
+                if not isinstance(n, ast.Assign) or len(n.targets) != 1:
+                    continue
+                t = n.targets[0]
+                if not (isinstance(t, ast.Attribute) and isinstance(
+                        t.value, ast.Name) and t.value.id == selfn
+                        and t.attr == fld):
+                    continue
+                v = n.value
+                reset = isinstance(v, ast.Constant)
+                if isinstance(v, ast.Attribute) and isinstance(
+                        v.value, ast.Name) and v.value.id == selfn \
+                        and v.attr != fld:
+                    ws2 = set()
+                    for cq2 in loaders:
+                        for st, meth in m.classes[cq2].fields.get(v.attr,
+                                                                  []):
+                            ws2.add(m.owner(meth).name)
+                    reset = ws2 == {"__init__"}
+                if (fn, n, reset) not in out:
+                    out.append((fn, n, reset))
+    return out
+
+
 def restore_check(ctx, rule):
     from zcstatic import cfg as C
     run, m, P = ctx.run, ctx.model, ctx.program
     loaders = [CL] + m.subclasses(CL)
     root = m.fn(CL + ".loadResource")
     reach = P.reachable([root])
-    writers = {}
+    fields = set()
     for cq in loaders:
-        c = m.classes[cq]
-        for fld, stores in c.fields.items():
-            for st, meth in stores:
-                o = m.owner(meth)
-                if o.name == "__init__" or o.qualname not in reach:
-                    continue
-                if o is root:
-                    continue
-                writers.setdefault(fld, set()).add(o.qualname)
+        fields |= set(m.classes[cq].fields)
+    writers, resetters = {}, {}
+    for fld in sorted(fields):
+        for fn, n, reset in field_stores(m, loaders, fld):
+            o = m.owner(fn)
+            if o.name == "__init__" and fn is o:
+                continue
+            if fn.qualname not in reach and o.qualname not in reach \
+                    and fn is not root:
+                continue
+            if reset:
+                resetters.setdefault(fld, set()).add(fn.qualname)
+            else:
+                writers.setdefault(fld, set()).add(fn.qualname)
     run.analysed.setdefault("restore_rule", {}).update({
         "loader_fields_rebound_during_a_load": {k: sorted(v) for k, v in
                                                 sorted(writers.items())},
+        "functions_that_reset_them": {k: sorted(v) for k, v in
+                                      sorted(resetters.items())},
         "top_level_load_function": root.qualname})
     if not writers:
         raise AnalysisError("%s: no loader field is re-bound during a load "
@@ -301,30 +356,19 @@ def restore_check(ctx, rule):
                             "longer replaces the schema?)" % rule)
     g = C.build(root)
     selfn = root.params[0]
-    # the calls through which the writers are reached
-    starts = []
-    for n in g.live_nodes():
+
+    def calls_in(n):
         if n.ast is None or n.kind not in ("stmt", "test", "with_enter"):
-            continue
+            return []
         a = n.ast.context_expr if n.kind == "with_enter" else n.ast
-        for x in ast.walk(a):
-            if not isinstance(x, ast.Call):
-                continue
-            try:
-                cs = P.resolve_call(root, x)
-            except Exception:
-                cs = []
-            tgt = [c.fn for c in cs if c.kind == "repo"]
-            if not tgt:
-                continue
-            sub = P.reachable(tgt)
-            if any(w in sub for ws in writers.values() for w in ws):
-                starts.append(n)
-                break
-    if not starts:
-        raise AnalysisError("%s: %s contains no call that reaches the "
-                            "functions re-binding %s" % (
-                                rule, root.qualname, sorted(writers)))
+        return [x for x in ast.walk(a) if isinstance(x, ast.Call)]
+
+    def callees(call):
+        try:
+            cs = P.resolve_call(root, call)
+        except Exception:
+            return []
+        return [c.fn for c in cs if c.kind == "repo"]
     for fld, ws in sorted(writers.items()):
         construct = "self.%s restored after the load" % fld
         if fld in RESTORE_EXEMPT:
@@ -333,37 +377,38 @@ def restore_check(ctx, rule):
                                                                  root.node),
                    nontrivial=False)
             continue
+        # the calls through which the re-binding functions are reached
+        starts = []
+        for n in g.live_nodes():
+            for call in calls_in(n):
+                tgt = callees(call)
+                if tgt and any(w in P.reachable(tgt) for w in ws):
+                    starts.append(n)
+                    break
+        if not starts:
+            raise AnalysisError("%s: %s contains no call that reaches the "
+                                "functions re-binding %s" % (
+                                    rule, root.qualname, fld))
+        stores = field_stores(m, loaders, fld)
 
-        def restores(n, fld=fld):
-            if n.kind != "stmt" or not isinstance(n.ast, ast.Assign):
-                return False
-            for t in n.ast.targets:
-                for tt in (t.elts if isinstance(t, ast.Tuple) else [t]):
-                    if isinstance(tt, ast.Attribute) and isinstance(
-                            tt.value, ast.Name) and tt.value.id == selfn \
-                            and tt.attr == fld:
+        def assigns(n, fld=fld, only_reset=False):
+            """The node assigns self.<fld> -- itself, or by calling a method
+            of the loader that does so unconditionally (a top-level statement
+            of its body)."""
+            if n.kind == "stmt" and isinstance(n.ast, ast.Assign):
+                for fn, a, reset in stores:
+                    if a is n.ast and (reset or not only_reset):
                         return True
+            for call in calls_in(n):
+                for fn in callees(call):
+                    for fn2, a, reset in stores:
+                        if fn2 is fn and a in fn.node.body and (
+                                reset or not only_reset) \
+                                and fn.qualname not in ws:
+                            return True
             return False
-        def resets(n, fld=fld):
-            """A re-assignment to a value that does not depend on earlier
-            loads: a constant, or a field only the constructor writes."""
-            if not restores(n):
-                return False
-            v = n.ast.value
-            if isinstance(v, ast.Tuple) or len(n.ast.targets) != 1:
-                return False
-            if isinstance(v, ast.Constant):
-                return True
-            if isinstance(v, ast.Attribute) and isinstance(
-                    v.value, ast.Name) and v.value.id == selfn \
-                    and v.attr != fld:
-                ws2 = set()
-                for cq in loaders:
-                    for st, meth in m.classes[cq].fields.get(v.attr, []):
-                        ws2.add(m.owner(meth).name)
-                return ws2 == {"__init__"}
-            return False
-        okb, _ = g.must_pass([g.entry], resets, starts)
+        okb, _ = g.must_pass([g.entry],
+                             lambda n: assigns(n, only_reset=True), starts)
         if okb:
             run.ok(rule, root.qualname, construct,
                    "every path from the entry of the load to the parse call "
@@ -374,11 +419,11 @@ def restore_check(ctx, rule):
                    loc=m.loc(root, root.node))
             continue
         bad = None
-        for s in starts:
-            ok, off = g.must_pass([x for _, x in s.succ], restores,
+        for s_ in starts:
+            ok, off = g.must_pass([x for _, x in s_.succ], assigns,
                                   [g.exit, g.raise_exit])
             if not ok:
-                bad = (s, off)
+                bad = (s_, off)
                 break
         if bad is None:
             run.ok(rule, root.qualname, construct,
@@ -387,7 +432,7 @@ def restore_check(ctx, rule):
                    "load by %s)" % (fld, ", ".join(sorted(ws))),
                    loc=m.loc(root, root.node))
         else:
-            s, off = bad
+            s_, off = bad
             run.fail(rule, root.qualname, construct,
                      "self.%s is re-bound during a load (by %s) and %s does "
                      "not put it back on the way to its %s exit: the next "
@@ -395,7 +440,7 @@ def restore_check(ctx, rule):
                      "left (vocabulary of a %%import, also of a failed one)"
                      % (fld, ", ".join(sorted(ws)), root.qualname,
                         "exceptional" if off is g.raise_exit else "normal"),
-                     loc=m.loc(root, s.ast),
+                     loc=m.loc(root, s_.ast),
                      witness={"field": fld, "writers": sorted(ws),
-                              "from": src(s.ast)[:80],
+                              "from": src(s_.ast)[:80],
                               "exit": off.kind})
